@@ -24,7 +24,11 @@ EXTENDS Naturals, Integers, Sequences, FiniteSets, TLC, Json, IOUtils
 CONSTANTS Source,        \* "enum" | "file"
           Objs,          \* object ids of a run (enum)
           RichObjs,      \* objects whose problem set ranges over everything; the others get a small menu
-          Interleave     \* TRUE: problems are met in any order
+          Interleave,    \* TRUE: problems are met in any order
+          VarSourceIsNewParent, \* TRUE while the tree has deviation reexported-variable-reported-in-package (ensure_parsed_docstring
+                         \* takes obj.parent for the source of a field-documented variable, also after the variable was moved)
+          StaleNameKept  \* TRUE while the tree has deviation duplicate-definition-errors-swallowed (handleDuplicate renames the
+                         \* superseded definition but leaves its OLD name in parse_errors)
 
 \* ------------------------------------------------------------------ runs (enum)
 \* per object: docformat of its module, planted problems
@@ -50,20 +54,32 @@ CONSTANTS Source,        \* "enum" | "file"
 \*                 docstring: parse errors and unresolvable links are reported once, against the defining method (the heir
 \*                 renders silently), field problems once per rendering (FieldHandler runs for both objects).  The ORDER IN
 \*                 WHICH THE PAGES ARE WRITTEN is the dimension: inhF = the subclass's module comes first, inhL = last
-ObjCfg == [shape : {"func", "class", "reexp", "dup", "dup2", "inhF", "inhL"}, fmt : {"rst", "epy"}, xref : BOOLEAN, field : BOOLEAN, nerr : 0..2, expr : BOOLEAN, regex : BOOLEAN]
+\*   crash  (func shape, reST) the module has, BEFORE the object, another function whose docstring sets a default role
+\*          (.. default-role::) and then makes the reST parser raise: one problem of its own (the parser's crash, reported
+\*          as a bad docstring of that function), and nothing else changes: what docutils keeps process-wide is none of the
+\*          later docstrings' business - their problems are found, printed and counted as ever
+\*          dup3   BOTH definitions carry markup errors (nerr each).  The second definition bears the name under which the
+\*                 errors of the first were recorded: reportErrors takes it for already reported (deviation StaleNameKept)
+\*          reexpv a module VARIABLE documented by a "var" field of the docstring of its (private) module and re-exported
+\*                 through __all__ of the package; the only problem: an unresolvable link in the body of that field
+ObjCfg == [shape : {"func", "class", "reexp", "reexpv", "dup", "dup2", "dup3", "inhF", "inhL"}, crash : BOOLEAN, fmt : {"rst", "epy"}, xref : BOOLEAN, field : BOOLEAN, nerr : 0..2, expr : BOOLEAN, regex : BOOLEAN]
 \* a fatal epytext error turns the whole docstring into plain text: nothing else in it is markup any more
 Realisable(c) == /\ (c.fmt = "epy" => (c.nerr <= 1 /\ (c.nerr = 1 => ~c.xref /\ ~c.field)))
                  /\ (c.shape # "func" => ~c.expr /\ ~c.regex)
-                 /\ (c.shape = "dup" => ~c.xref /\ ~c.field /\ c.nerr > 0)
+                 /\ (c.shape \in {"dup", "dup3"} => ~c.xref /\ ~c.field /\ c.nerr > 0)
                  /\ (c.shape \in {"inhF", "inhL"} => c.fmt = "rst" /\ c.nerr = 0)
-Clean(c) == ~c.xref /\ ~c.field /\ c.nerr = 0 /\ ~c.expr /\ ~c.regex
-Menu == {c \in ObjCfg : c.shape = "func" /\ c.fmt = "rst" /\ ~c.xref /\ ~c.field /\ ~c.expr /\ ~c.regex /\ c.nerr <= 1}
+                 /\ (c.shape = "reexpv" => c.xref /\ ~c.field /\ c.nerr = 0)
+                 /\ (c.crash => c.shape = "func" /\ c.fmt = "rst" /\ c.nerr = 0 /\ ~c.expr /\ ~c.regex)
+Clean(c) == ~c.crash /\ ~c.xref /\ ~c.field /\ c.nerr = 0 /\ ~c.expr /\ ~c.regex
+Menu == {c \in ObjCfg : ~c.crash /\ c.shape = "func" /\ c.fmt = "rst" /\ ~c.xref /\ ~c.field /\ ~c.expr /\ ~c.regex /\ c.nerr <= 1}
 Events(o, c) == (IF c.xref THEN {[o |-> o, kind |-> "xref", n |-> 1]} ELSE {})
            \cup (IF c.field THEN {[o |-> o, kind |-> "field", n |-> IF c.shape \in {"inhF", "inhL"} THEN 2 ELSE 1]} ELSE {})
            \cup (IF c.nerr > 0 THEN {[o |-> o, kind |-> "parse", n |-> c.nerr]} ELSE {})
+           \cup (IF c.shape = "dup3" THEN {[o |-> o, kind |-> "parse2", n |-> c.nerr]} ELSE {})
            \cup (IF c.expr THEN {[o |-> o, kind |-> "expr", n |-> 1]} ELSE {})
            \cup (IF c.regex THEN {[o |-> o, kind |-> "regex", n |-> 1]} ELSE {})
-Order(e) == CASE e.kind = "parse" -> 1 [] e.kind = "xref" -> 2 [] e.kind = "field" -> 3 [] e.kind = "expr" -> 4 [] e.kind = "regex" -> 5
+           \cup (IF c.crash THEN {[o |-> o, kind |-> "crash", n |-> 1]} ELSE {})
+Order(e) == CASE e.kind = "parse" -> 1 [] e.kind = "xref" -> 2 [] e.kind = "field" -> 3 [] e.kind = "expr" -> 4 [] e.kind = "regex" -> 5 [] e.kind = "crash" -> 0 [] e.kind = "parse2" -> 1
 
 Traces == IF Source = "file" THEN JsonDeserialize(IOEnv.TRACE_FILE) ELSE <<>>
 ASSUME TLCSet(1, {})
@@ -101,7 +117,9 @@ Counted(thresh) == IF thresh < 0 THEN 1 ELSE 0                        \* model.p
 \* (model.py:200-209) = the object's OWN source_path: the file it was defined in, wherever it has been moved since
 ReportN(o, n) == /\ violations' = violations + n * Counted(0 - 1)
                  /\ printed' = printed + (IF Shown(0 - 1, 100) THEN n ELSE 0)
-                 /\ named' = IF Source = "enum" THEN [named EXCEPT ![o] = @ + (IF Shown(0 - 1, 100) THEN n ELSE 0)] ELSE named
+                 \* (a moved field-documented variable is reported against its NEW parent: the package's __init__ - deviation)
+                 /\ named' = IF Source = "enum" /\ ~(VarSourceIsNewParent /\ cfg[o].shape = "reexpv")
+                             THEN [named EXCEPT ![o] = @ + (IF Shown(0 - 1, 100) THEN n ELSE 0)] ELSE named
 \* epydoc2stan.reportErrors(obj, errs, section)
 ReportErrors(section, nm, o, n) ==
     IF <<section, nm>> \in perr
@@ -110,29 +128,38 @@ ReportErrors(section, nm, o, n) ==
 Section(kind) == IF kind = "expr" THEN "signature" ELSE "docstring"
 
 \* the name an object is known by right now (what obj.fullName() returns): it changes when the object is moved
-Name(o) == <<o, o \in moved>>
+Name(o) == <<o, IF o \in moved THEN "moved" ELSE "home">>
 \* found while the module is built (before any move) / while the pages are rendered (after every move)
-BuildPhase(e) == e.kind = "parse" /\ cfg[e.o].shape # "func"
-ToMove == {o \in Objs : cfg[o].shape \in {"reexp", "dup"} /\ o \notin moved}
+BuildPhase(e) == e.kind \in {"parse", "parse2"} /\ cfg[e.o].shape # "func"
+ToMove == {o \in Objs : cfg[o].shape \in {"reexp", "reexpv", "dup", "dup3"} /\ o \notin moved}
 Key(e) == (IF BuildPhase(e) THEN 0 ELSE 100) + 10 * e.o + Order(e)
 \* enum: meet one planted problem
 Meet(e) == /\ exit = 0 - 1 /\ Source = "enum" /\ e \in todo
            /\ (Interleave \/ \A f \in todo : Key(f) >= Key(e))
-           /\ (BuildPhase(e) => e.o \notin moved)
+           /\ (e.kind = "parse" /\ BuildPhase(e) => e.o \notin moved)
+           /\ (e.kind = "parse2" => e.o \in moved)                       \* the second definition comes after the first was superseded
            /\ (~BuildPhase(e) => ToMove = {} /\ \A f \in todo : ~BuildPhase(f))
            /\ todo' = todo \ {e}
            /\ met' = met \cup {e}
-           /\ IF e.kind \in {"parse", "expr"} THEN ReportErrors(Section(e.kind), Name(e.o), e.o, e.n)
+           \* (the function that comes first in the module is rendered first)
+           /\ (e.kind # "crash" => \A f \in todo : ~(f.kind = "crash" /\ f.o = e.o))
+           /\ IF e.kind = "crash" THEN ReportErrors("docstring", <<e.o, "pre">>, e.o, 1)
+              \* the new definition goes by the name the old one had when its errors were recorded
+              ELSE IF e.kind = "parse2" THEN ReportErrors("docstring", <<e.o, "home">>, e.o, e.n)
+              ELSE IF e.kind \in {"parse", "expr"} THEN ReportErrors(Section(e.kind), Name(e.o), e.o, e.n)
               ELSE ReportN(e.o, e.n) /\ UNCHANGED perr
            /\ UNCHANGED <<sumlines, moved, exit>>
 \* astbuilder: __all__ of the package re-exports the class: reparent() / a second definition supersedes the first:
 \* handleDuplicate().  Nothing is recorded anywhere about the old name.
 Move(o) == /\ exit = 0 - 1 /\ Source = "enum" /\ o \in ToMove
-           /\ \A f \in todo : ~(BuildPhase(f) /\ f.o = o)             \* its module has been built
+           /\ \A f \in todo : ~(f.kind = "parse" /\ BuildPhase(f) /\ f.o = o)             \* its (first) definition has been built
            /\ moved' = moved \cup {o}
-           /\ UNCHANGED <<todo, violations, perr, printed, sumlines, met, named, exit>>
+           \* handleDuplicate: the superseded definition is renamed; what parse_errors holds about it is not (StaleNameKept)
+           /\ perr' = IF StaleNameKept \/ cfg[o].shape \in {"reexp", "reexpv"} THEN perr
+                       ELSE {IF p[2] = <<o, "home">> THEN <<p[1], <<o, "moved">>>> ELSE p : p \in perr}
+           /\ UNCHANGED <<todo, violations, printed, sumlines, met, named, exit>>
 \* names in parse_errors that no longer designate an object
-Stale == {p \in perr : p[2] # Name(p[2][1])}
+Stale == {p \in perr : p[2][2] # "pre" /\ p[2] # Name(p[2][1])}
 
 DocErrs == {p \in perr : p[1] = "docstring"}
 \* driver.py:171-190: main looks at the SETS of names, never at the objects: a stale name counts like any other
@@ -163,12 +190,18 @@ TMove == /\ Source = "file" /\ exit = 0 - 1 /\ todo <= Len(Traces[tid].ev) /\ Ev
          /\ moved' = moved \cup {<<Ev.o, Ev.to>>}
          /\ Ev.v = violations /\ Ev.perr = Cardinality(perr)
          /\ UNCHANGED <<violations, perr, printed, sumlines, met, named, exit>>
+\* System.handleDuplicate: the previous holder of the name is renamed; what parse_errors says about it follows or not
+TSupersede == /\ Source = "file" /\ exit = 0 - 1 /\ todo <= Len(Traces[tid].ev) /\ Ev.op = "supersede"
+              /\ moved' = moved \cup {<<Ev.o, Ev.to>>}
+              /\ perr' = IF StaleNameKept THEN perr ELSE {IF p[2] = Ev.o THEN <<p[1], Ev.to>> ELSE p : p \in perr}
+              /\ Ev.v = violations /\ Ev.perr = Cardinality(perr')
+              /\ UNCHANGED <<violations, printed, sumlines, met, named, exit>>
 TExit == /\ Source = "file" /\ exit = 0 - 1 /\ todo <= Len(Traces[tid].ev) /\ Ev.op = "exit"
          /\ Ev.code = ExitCode(violations)
          /\ Ev.perr = Cardinality(perr)
          /\ exit' = Ev.code
          /\ UNCHANGED <<violations, perr, printed, sumlines, met, named, moved>>
-TraceNext == (TMsg \/ TReportErrors \/ TMove \/ TExit) /\ todo' = todo + 1
+TraceNext == (TMsg \/ TReportErrors \/ TMove \/ TSupersede \/ TExit) /\ todo' = todo + 1
 
 Next == /\ \/ \E e \in (IF Source = "enum" THEN todo ELSE {}) : Meet(e)
            \/ \E o \in (IF Source = "enum" THEN Objs ELSE {}) : Move(o)
@@ -179,7 +212,7 @@ Spec == Init /\ [][Next]_vars
 
 \* ------------------------------------------------------------------ the property (from the statement)
 Done == exit # 0 - 1
-Unparsed == \E e \in met : e.kind \in {"parse", "expr"}         \* some docstring or displayed expression could not be parsed
+Unparsed == \E e \in met : e.kind \in {"parse", "parse2", "expr", "crash"}         \* some docstring or displayed expression could not be parsed
 \* every problem written to stdout has been counted
 EveryReportCounted == printed <= violations
 \* -W: status 3 exactly when at least one problem was reported
@@ -191,10 +224,20 @@ ExitNoW == (Done /\ ~W) => (exit = (IF Unparsed THEN 2 ELSE 0))
 RECURSIVE SumNamed(_)
 SumNamed(S) == IF S = {} THEN 0 ELSE LET o == CHOOSE x \in S : TRUE IN named[o] + SumNamed(S \ {o})
 NamesTheFile == (Done /\ Source = "enum") => SumNamed(Objs) = printed
+\* known finding (findings.d/C16.json  reexported-variable-reported-in-package)
+Astray == Cardinality({e \in met : cfg[e.o].shape = "reexpv"})
+NamesTheFileOrKF == (Done /\ Source = "enum") => (SumNamed(Objs) = printed \/ (VarSourceIsNewParent /\ Astray > 0 /\ SumNamed(Objs) + Astray = printed))
 \* a problem reported under a name that went stale afterwards is a reported problem all the same
 StaleStillCounts == (Done /\ Source = "enum" /\ ~W /\ Stale # {}) => exit = 2
 \* enum only: nothing that was planted is lost: one line per problem, one per markup error (n is 1 or 2)
 NothingLost == (Done /\ Source = "enum") => printed = Cardinality(met) + Cardinality({e \in met : e.n = 2})
+\* known finding (findings.d/C16.json  duplicate-definition-errors-swallowed): the markup errors of the second of two
+\* definitions that both have some are never printed
+LostToStaleName == {e \in met : e.kind = "parse2"}
+NothingLostOrKF == (Done /\ Source = "enum") =>
+    \/ printed = Cardinality(met) + Cardinality({e \in met : e.n = 2})
+    \/ (StaleNameKept /\ LostToStaleName # {}
+          /\ printed = Cardinality(met \ LostToStaleName) + Cardinality({e \in met \ LostToStaleName : e.n = 2}))
 
 \* ------------------------------------------------------------------ emission / acceptance
 EmitTerminal == (Done /\ Source = "enum") =>
